@@ -28,6 +28,47 @@ class Inexact(Exception):
     pass
 
 
+def eff(a):
+    """effective (weights, factors) of a case: the integer data times the powers of two named in a['sc'] (weights * 2^sc.a,
+    factor n * 2^sc.b[n]); exact Fractions, every one of them a binary float"""
+    sc = a.get("sc")
+    if not sc:
+        return a["w"], a["f"]
+    sa = Fr(2) ** sc["a"]
+    return ([Fr(x) * sa for x in a["w"]],
+            [[[Fr(x) * Fr(2) ** kb for x in row] for row in A] for A, kb in zip(a["f"], sc["b"])])
+
+
+def rel_comparers(e):
+    """scaled inputs (magnitudes 2^-24 .. 2^24): the comparers with an absolute floor are replaced by the purely relative ones
+    (raw weights / factor entries) and the ones relative to the largest magnitude (sums: symmetrize, denoted arrays)"""
+    e = e.replace("qk_close (qk_symmetrize", "qk_mclose (qk_symmetrize")
+    for x, y in (("qk_close ", "qk_rclose "), ("qv_close ", "qv_rclose "), ("qmats_close ", "qmats_rclose "),
+                 ("qk_den_close ", "qk_den_mclose "), ("qk_den_rel ", "qk_den_mrel "),
+                 ("qk_sorted_of ", "qk_sorted_of_r "), ("qk_sorted_pick ", "qk_sorted_pick_r ")):
+        e = e.replace(x, y)
+    return e
+
+
+SCALES = [-24, -20, -12, 12, 20, 24]
+
+
+def rand_scale(rng, N, need_root):
+    """exponents for the weights and each factor: one or two of the N+1 slots are scaled (so the total stays within 2^+-48);
+    when exact N-th roots are needed only scalings whose total exponent is -N*j with 2^j < 400"""
+    if need_root:
+        j = rng.choice([4, 8])
+        return rng.choice([{"a": -N * j, "b": [0] * N}, {"a": 0, "b": [-j] * N}])
+    sc = {"a": 0, "b": [0] * N}
+    for slot in rng.sample(range(N + 1), rng.choice([1, 1, 2])):
+        k = rng.choice(SCALES)
+        if slot == N:
+            sc["a"] = k
+        else:
+            sc["b"][slot] = k
+    return sc
+
+
 def isq(n):
     r = math.isqrt(n)
     return r if r * r == n else None
@@ -175,6 +216,28 @@ def m_fso_ties(st, st2):
         if any(x == 0 for x in sc) or len(set(abs(x) for x in sc)) < len(sc):
             return True
     return False
+
+
+def sign_agreement(w, f, w2, f2, fo):
+    """fixsigns(other), the promised normal form evaluated on pyttb's result (factors fo), by brute force: per component of the
+    reference no mode correlates negatively with the normalised reference when the number of negative correlations was even, at
+    most one when it was odd.  Signs only (normalisation divides by positive norms; its sign step negates column r of factor 0
+    when the weight is negative); -> None | description"""
+    def negs(fa, flip0):
+        out = 0
+        for n, (A, B) in enumerate(zip(fa, f2)):
+            d = sum(Fr(ra[r]) * Fr(rb[r]) for ra, rb in zip(A, B))
+            if n == 0 and flip0:
+                d = -d
+            out += d < 0
+        return out
+    for r in range(min(len(w2), len(w))):
+        before = negs(f, (w[r] < 0) != (w2[r] < 0))
+        after = negs(fo, w2[r] < 0)
+        if after > 1 or (before % 2 == 0 and after != 0):
+            return (f"fixsigns(other): in component {r}, {before} modes correlated negatively with the reference and {after} still do "
+                    f"(sign-agreement normal form: {'none' if before % 2 == 0 else 'at most one'})")
+    return None
 
 
 def score_no_ties(st, st2):
@@ -429,9 +492,10 @@ def build_history(rng, c08, shape, R, kind, names):
         w2 = c08.make_all_rootable(w, f, 2)
         if w2 is not None and max(abs(x) for x in w2) < 2 ** 40:
             w = w2
-    if rng.random() < 0.1:
-        w = [x * 2 ** rng.choice([20, 23]) for x in w]            # magnitudes: weights around 1e6 .. 1e7
-    st = st_copy((w, f))
+    sc = None
+    if rng.random() < 0.35:                                       # magnitudes: data times 2^-24 .. 2^24 (6e-8 .. 2e7)
+        sc = rand_scale(rng, len(shape), any(n in names for n in ("normalize_abs", "symmetrize", "tolist")))
+    st = st_copy(eff({"w": w, "f": f, "sc": sc}))
     cur_shape = list(shape)
     steps = []
     for k, name in enumerate(names):
@@ -450,7 +514,7 @@ def build_history(rng, c08, shape, R, kind, names):
             pre = m_normalize(st, None if s["op"] == "arrange" else s["wf"], False, s.get("normtype", 2), None)
             if len(pre[0]) > 5 and len(set(pre[0])) < len(pre[0]):
                 return None                      # too many arrangements of tied weights to search
-        if max([abs(x.numerator) for x in nxt[0]] + [x.denominator for x in nxt[0]] + [1]) > 2 ** 60:
+        if max([abs(x.numerator) for x in nxt[0]] + [x.denominator for x in nxt[0]] + [1]) > 2 ** (110 if sc else 60):
             return None
         steps.append(s)
         if not s.get("old"):
@@ -459,7 +523,10 @@ def build_history(rng, c08, shape, R, kind, names):
                 cur_shape = [cur_shape[k2] for k2 in s["order"]]
     if len(steps) < 2:
         return None
-    return Case("hist", {"w": w, "f": f, "lay": rand_lay(rng, len(shape)), "steps": steps, "kind": kind}, True)
+    args = {"w": w, "f": f, "lay": rand_lay(rng, len(shape)), "steps": steps, "kind": kind}
+    if sc:
+        args["sc"] = sc
+    return Case("hist", args, True)
 
 
 HSHAPES = [(2, 3), (3, 2), (2, 2), (2, 3, 2), (3, 2, 2), (2, 2, 2), (3, 3), (3, 3, 3), (2, 1, 3), (2, 2, 2, 2), (3,), (4, 2)]
@@ -542,7 +609,7 @@ def run_hist(c):
     a = c.args
     out = []
     try:
-        K = mk_k(ttb, np, a["w"], a["f"], a["lay"])
+        K = mk_k(ttb, np, *eff(a), a["lay"])
         frozen = []                        # (label, object, snapshot) of everything later steps must not touch
 
         def freeze(label, obj):
@@ -785,7 +852,9 @@ def coq_hist(c, o):
                               f"qclose tol9 {gq(Fr(ob['score']))} (qk_score_val {P} L)")
         elif op == "fixsigns_other":
             binds.append(("L", gqk(s["w2"], s["f2"])))
-            checks += [f"qk_close (qk_fixsigns_other {P} L) O", f"qk_sign_nf {P} L O", f"qk_den_close {shp} {P} O"]
+            # pyttb against the literal column loop, and the loop against the one-shot model (exactly: theorem C08_fixsigns_other_loop)
+            checks += [f"qk_close (qk_py_fixsigns_other {P} L) O", f"qk_eqb (qk_py_fixsigns_other {P} L) (qk_fixsigns_other {P} L)",
+                       f"qk_sign_nf {P} L O", f"qk_den_close {shp} {P} O"]
         else:
             raise ValueError(op)
         keep_old = bool(s.get("old"))
@@ -806,7 +875,9 @@ def coq_hist(c, o):
         for name, val in reversed(binds):
             e = f"let {name} := {val} in {e}"
         expr = f"({e})"
-    return f"let S0 := {gqk(a['w'], a['f'])} in {expr}"
+    if a.get("sc"):
+        expr = rel_comparers(expr)
+    return f"let S0 := {gqk(*eff(a))} in {expr}"
 
 
 # ----------------------------------------------------------------------------------------------------------------
@@ -816,10 +887,18 @@ def oracle_hist(c, o, den, close):
     a = c.args
     if "exc" in o and len(o["steps"]) < len(a["steps"]):
         return f"admissible request raised {o['exc']}: {o.get('msg')} (step {len(o['steps'])}: {a['steps'][len(o['steps'])]['op']})"
-    prev = {"weights": a["w"], "factors": a["f"]}
+    ew, ef = eff(a)
+    prev = {"weights": ew, "factors": ef}
     shape = [len(A) for A in a["f"]]
+    hist_scale = [Fr(0)]
+    dclose = close                 # comparison of entries of denoted arrays
+    if a.get("sc"):
+        def dclose(x, y, tol=Fr(1, 10 ** 9)):        # relative to the size of the data (no absolute floor of 1)
+            return abs(Fr(x) - Fr(y)) <= tol * max(abs(Fr(y)), hist_scale[0])
     for k, (s, ob) in enumerate(zip(a["steps"], o["steps"])):
         op = s["op"]
+        if a.get("sc"):
+            hist_scale[0] = max([abs(den(prev["weights"], prev["factors"], i)) for i in tgen.all_subs(shape)] + [Fr(0)])
         if ob["changed"]:
             return f"step {k} ({op}) modified an object it must not touch: {ob['changed']}"
         res = ob.get("new") if (op in NEWOBJ or op in ("symmetrize", "score")) else ob["k"]
@@ -838,10 +917,10 @@ def oracle_hist(c, o, den, close):
                 return f"step {k}: symmetrize result has different factors"
             subs = tgen.all_subs(shape)
             pv = {tuple(i): den(prev["weights"], prev["factors"], i) for i in subs}
-            if all(close(pv[tuple(i)], pv[tuple(sorted(i))]) for i in subs):
+            if all(dclose(pv[tuple(i)], pv[tuple(sorted(i))]) for i in subs):
                 for i in subs:
                     got = den(res["weights"], res["factors"], i)
-                    if not close(got, pv[tuple(i)]):
+                    if not dclose(got, pv[tuple(i)]):
                         return (f"step {k}: symmetrize changed the value of an already symmetric Kruskal tensor at {i}: "
                                 f"{float(got)} instead of {float(pv[tuple(i)])}")
         else:
@@ -867,7 +946,7 @@ def oracle_hist(c, o, den, close):
                         want = den([prev["weights"][r] for r in s["p"]],
                                    [[[row[r] for r in s["p"]] for row in A] for A in prev["factors"]], i)
                 got = den(res["weights"], res["factors"], i)
-                if not close(got, want):
+                if not dclose(got, want):
                     return f"step {k} ({op}): denoted array differs at {i}: {float(got)} instead of {float(want)}"
             w = [Fr(x) for x in res["weights"]]
             if op in ("normalize", "arrange") and s.get("mode") is None:
@@ -890,6 +969,10 @@ def oracle_hist(c, o, den, close):
                                 return f"step {k}: zero column with weight {float(w[r])}"
             if op == "redistribute" and any(x != 1 for x in w):
                 return f"step {k}: weights not all one after redistribute"
+        if op == "fixsigns_other":
+            bad = sign_agreement(prev["weights"], prev["factors"], s["w2"], s["f2"], res["factors"])
+            if bad:
+                return f"step {k}: {bad}"
         if op in ("tolist", "symmetrize", "score"):
             if ob["self"] != prev:
                 return f"step {k} ({op}) changed its receiver"
